@@ -583,11 +583,11 @@ Proof.
   - eapply serve_contained_fs; eassumption.
 Qed.
 
-Lemma run_request_contained_fs c fs fm rq r fm' log :
+Lemma run_request_core_contained_fs c fs fm rq r fm' log :
   wf_fs c -> root_is_dir c fs -> fm_ok c fm ->
-  run_request c fs fm rq = ((r, fm'), log) -> contained c log = true /\ fm_ok c fm'.
+  run_request_core c fs fm rq = ((r, fm'), log) -> contained c log = true /\ fm_ok c fm'.
 Proof.
-  intros Hwf Hroot Hfm H. unfold run_request in H.
+  intros Hwf Hroot Hfm H. unfold run_request_core in H.
   assert (Hret : forall r0, ret (r0, fm) = ((r, fm'), log) -> contained c log = true /\ fm_ok c fm').
   { intros r0 E. unfold ret in E. injection E as <- <- <-. split; [reflexivity|assumption]. }
   (* goals that remain after the default mounting (request.subpath given) is solved: 0, 5, 6, 4, 2, 1 *)
@@ -609,6 +609,32 @@ Proof.
   - destruct (decode (unquote (r_raw rq))) as [p0|]; [|eapply Hret; eassumption].
     destruct (route_match _ _) as [rest|]; [|eapply Hret; eassumption].
     eapply serve_contained_fs; eassumption.
+Qed.
+
+(* with HTTP_X_VHM_ROOT: the request is answered as without it, or not at all (a decoding error / 404, no file access) *)
+Lemma run_request_cases c fs fm rq :
+  run_request c fs fm rq = run_request_core c fs fm rq \/
+  (exists r, run_request c fs fm rq = ret (r, fm) /\ (r = RExc 2 \/ r = R404 0)) \/
+  (exists t, run_request c fs fm rq = serve c rq (unquote (r_raw rq)) fs fm t).
+Proof.
+  unfold run_request. destruct (routed_by_route _); [|left; reflexivity].
+  destruct (decode _) as [p0|]; [|left; reflexivity].
+  unfold vroot_gate, vroot_tuple. destruct (c_vroot c) as [v|]; [|left; reflexivity].
+  destruct (decode v) as [u|]; [|right; left; eexists; split; [reflexivity|left; reflexivity]].
+  destruct (split_path_info_f u) as [|seg rest]; [left; reflexivity|].
+  destruct (empty_text _); [|right; left; eexists; split; [reflexivity|right; reflexivity]].
+  destruct (route_matches c p0); [right; right; eexists; reflexivity|].
+  right; left; eexists; split; [reflexivity|right; reflexivity].
+Qed.
+
+Lemma run_request_contained_fs c fs fm rq r fm' log :
+  wf_fs c -> root_is_dir c fs -> fm_ok c fm ->
+  run_request c fs fm rq = ((r, fm'), log) -> contained c log = true /\ fm_ok c fm'.
+Proof.
+  intros Hwf Hroot Hfm H. destruct (run_request_cases c fs fm rq) as [E|[(r0 & E & _)|(t & E)]]; rewrite E in H.
+  - eapply run_request_core_contained_fs; eassumption.
+  - unfold ret in H. injection H as <- <- <-. split; [reflexivity|assumption].
+  - eapply serve_contained_fs; eassumption.
 Qed.
 
 Lemma run_requests_contained_fs c fs rqs fm :
